@@ -395,7 +395,72 @@ def run(ctx):
                     "oracle": {"name": "c20Histories", "result": False,
                                "witness": {"why": "two histories containing the same successful steps end in different datasets",
                                            "history": hist, "tables_differing": diff}}})
+    wide_steps(ctx)
     no_dataset_guard(ctx, done_data, ndata)
+
+
+def wide_steps(ctx):
+    """a level grid fine enough for `rise` and `recession` to write well over ten thousand rows each (a step that
+    writes a lot is where batching, intermediate commits and cache spills come in): the trace is still one transaction,
+    and an error or a kill late in the step leaves the previous content"""
+    rng = ctx.rng
+    ob1 = "SQL trace of each step is one transaction (singleTxnB) inside its declared footprint"
+    ob2 = "file content after a fault at every statement = model crashAfter (old before the commit point, new after)"
+    tr = P.gen_truth(rng, n_events=rng.randint(5, 8))
+    tv = sum(abs(b - a) for a, b in zip(tr.level, tr.level[1:]))
+    zstep = float("%.2g" % (tv / 2.0 / rng.randint(23000, 28000)))        # about 27,000 rows for rise, 12,000 for recession
+    files = cli.write_dataset(ctx.tmp, "wide", *tr.rows())
+    cur = ctx.scratch("wide-base.sqlite3")
+    inp0 = {"truth": tr.describe(), "zeta_step": zstep, "note": "fine level grid: more than ten thousand rows per curve"}
+    rs = [cli.load(cur, files)] + [cli.run(argv_of(st, cur, tr, zstep)) for st in ("classify", "set-zeta-grid", "set-curvature")]
+    if any(r[0] != "ok" for r in rs):
+        ctx.corr_break(ob1, {"input": inp0, "impl": [list(r) for r in rs], "no_longer_checks": "a planted record is loaded, classified and gridded with a fine step"})
+        return
+    work = ctx.scratch("wide-work.sqlite3")
+    for st in ("rise", "recession"):
+        old = cli.dump(cur)
+        copy_db(cur, work)
+        t = forked(argv_of(st, work, tr, zstep), "trace", -1, ctx.tmp)
+        if "stmts" not in t or t.get("status", ["x"])[0] != "ok":
+            ctx.corr_break(ob1, {"input": dict(inp0, step=st), "impl": {k_: t.get(k_) for k_ in ("killed", "status")},
+                                 "no_longer_checks": "the step runs to the end in a traced child process"})
+            return
+        new = cli.dump(work)
+        evs = [e for e in (classify_stmt(s_) for s_ in t["stmts"]) if e and e != "p"]
+        # (thousands of consecutive writes are one write as far as transaction structure goes; the model walks the list)
+        short = [e for i_, e in enumerate(evs) if i_ == 0 or e != evs[i_ - 1] or e not in ("w", "r")]
+        chk = ctx.driver.call("txn.check", {"events": short})
+        n_calls, n_traced = t["calls"], len(t["stmts"])
+        ctx.count("statements_of_the_wide_" + st, n_traced)
+        ctx.obligation(ob1, chk["single"])
+        ctx.case(("wide", st, "trace"), True)
+        commit_idx = max([i for i, s_ in enumerate(t["stmts"]) if classify_stmt(s_) == "c"] + [-1])
+        ks = sorted({n_calls - 1, min(n_calls - 1, 10500)})        # the last statement, and one just after the ten-thousandth row
+        for mode, k in [("error", k) for k in ks] + [("kill", k) for k in ks if k < commit_idx]:
+            copy_db(cur, work)
+            forked(argv_of(st, work, tr, zstep), mode, k, ctx.tmp)
+            got = cli.dump(work)
+            ctx.case(("wide", st, mode, k), True)
+            ctx.count("faults_late_in_a_wide_step")
+            ok = got == old
+            ctx.obligation(ob2, ok)
+            if not ok:
+                diff = [n for n in got if got[n] != old.get(n)]
+                ctx.violation("impl-violation", "c20Atomic", {
+                    "input": dict(inp0, step=st, fault=mode, index=k), "impl": {"tables_differing_from_previous_content": diff,
+                                                                              "is_complete_result": got == new},
+                    "oracle": {"name": "c20Atomic", "result": False,
+                               "witness": {"why": "after a fault late in a step that writes more than ten thousand rows the dataset is "
+                                                  "neither its previous content nor the complete result" if got != new else
+                                                  "a fault before the commit point left the complete result",
+                                           "step": st, "mode": mode, "index": k, "statements": n_traced}}})
+                break
+        if not chk["single"]:
+            ctx.corr_break(ob1, {"input": dict(inp0, step=st), "impl": {"trace_events": "".join(short)[:200], "statements": n_traced},
+                                 "no_longer_checks": "Spowtd.Txn.atomic (hypothesis SingleTxn of the SQL trace)"})
+        r = cli.run(argv_of(st, cur, tr, zstep))
+        if r[0] != "ok":
+            return
 
 
 def no_dataset_guard(ctx, done_data, ndata):
